@@ -21,7 +21,9 @@ Menu == <<
   [k |-> "oldpal04", packets |-> <<[skip |-> 0, count |-> 0, rgb |-> [i \in 1..256 |-> <<i - 1, 255 - (i - 1), (i * 7) % 256>>]]>>],
   \* a hole inside a palette that still has entries 0 and n-1 (ids 0, 2, 3): index 1 is absent
   [k |-> "oldpal04", packets |-> <<[skip |-> 0, count |-> 1, rgb |-> <<<<50, 60, 70>>>>], [skip |-> 2, count |-> 2, rgb |-> <<<<51, 61, 71>>, <<52, 62, 72>>>>]>>],
-  [k |-> "oldpal11", packets |-> <<[skip |-> 0, count |-> 2, rgb |-> <<<<5, 6, 7>>, <<8, 9, 10>>>>], [skip |-> 4, count |-> 2, rgb |-> <<<<1, 1, 1>>, <<2, 2, 2>>>>]>>]
+  [k |-> "oldpal11", packets |-> <<[skip |-> 0, count |-> 2, rgb |-> <<<<5, 6, 7>>, <<8, 9, 10>>>>], [skip |-> 4, count |-> 2, rgb |-> <<<<1, 1, 1>>, <<2, 2, 2>>>>]>>],
+  \* count byte 0 (= 256 colours) together with a non-zero cumulative skip: ids 3..258
+  [k |-> "oldpal04", packets |-> <<[skip |-> 1, count |-> 1, rgb |-> <<<<90, 91, 92>>>>], [skip |-> 2, count |-> 0, rgb |-> [i \in 1..256 |-> <<(i * 3) % 256, i - 1, 255 - (i - 1)>>]]>>]
 >>
 IsNew(i) == Menu[i].k = "pal"
 PixelAlphabet == {0, 1, 2, 3, 4, 5, 7, 255}
